@@ -27,10 +27,19 @@ def is_rounding(h, x, unit=10):
     return h % unit == 0 and 2 * abs(h - x) <= unit
 
 
-def compare(S, ev):
-    """S: TLC state (dict of variables incl. obs, marks); ev: rig event.  Returns a list of
-    (tag, detail); tag is '<property>:<clause>'.  `cascade` tells whether the mismatch may make
-    later steps of this behaviour meaningless."""
+def compare(S, ev, prev=None):
+    """S: TLC state (dict of variables incl. obs, pnl, marks); ev: rig event; prev: the rig event before it.
+    Returns a list of (tag, detail, cascade); tag is '<property>:<clause>'.  `cascade` tells whether the
+    mismatch may make later steps of this behaviour meaningless.
+
+    Attribution follows the properties, not raw state diffs:
+      * a refused call (C15) is judged against the PREVIOUS projection of the real objects - nothing listed in the
+        property may have changed - and against nothing else;
+      * account totals (C01) are judged against the per-portfolio figures the getters themselves report;
+      * equity / total market value (C02) are judged as relations between reported figures; a holding's market
+        value against quantity x the latest price seen (TLC's ghost);
+      * P&L (C03): realised against TLC's exact value; the three identities relative to the price the
+        implementation currently values the holding at, TLC's exact average cost and TLC's ghost ledger."""
     out = []
 
     def bad(tag, detail, cascade=True):
@@ -41,98 +50,141 @@ def compare(S, ev):
     if ev["err"] != S["err"]:
         owner = "C15" if rejected or ev["call"]["op"].startswith("pf_") else _owner(ev["call"]["op"])
         bad(owner + ":outcome", "call %r: expected %s, got %s" % (ev["call"], S["err"], ev["err"]))
-    pre = "C15:rejected-state/" if rejected else ""
-
-    def tag(t):
-        # after a refusal every observable belongs to C15 ("changes nothing")
-        return ("C15:state(" + t + ")") if rejected else t
-
-    cash, clk, pos = asdict(S["cash"]), asdict(S["clk"]), asdict(S["pos"])
-    hist, queue, obs = asdict(S["hist"]), asdict(S["queue"]), S["obs"]
-    if post["master"] != S["master"]:
-        bad(tag("C01:master"), "master %s, expected %s" % (post["master"], S["master"]))
+    # ---- always: account totals, getters on unknown ids, internal relations --------------------------------
     if post["other"] != 0:
-        bad(tag("C01:other-currency"), "other currency balances moved: %s" % post["other"])
-    if post["created"] != list(S["created"]):
-        bad(tag("C01:portfolios"), "portfolios %s, expected %s" % (post["created"], S["created"]))
-        return out
+        bad("C01:other-currency", "other currency balances moved: %s" % post["other"])
+    if not isinstance(post["acctEq"], int) or post["acctEq"] != sum(post["teq"].values()):
+        bad("C01:account-equity", "account total equity %s, per-portfolio figures %s" % (post["acctEq"], post["teq"]), cascade=False)
+    if not isinstance(post["acctMv"], int) or post["acctMv"] != sum(post["tmv"].values()):
+        bad("C01:account-market-value", "account total market value %s, per-portfolio figures %s" % (post["acctMv"], post["tmv"]),
+            cascade=False)
+    exp_unk = dict(cash="ValueError", tmv="KeyError", teq="KeyError", dict="KeyError", ccy="ValueError")
+    if post["unk"] != exp_unk:
+        bad("C15:getter-errtype", "getters on unknown ids raised %s, expected %s" % (post["unk"], exp_unk), cascade=False)
+    for p in post["created"]:
+        if post["teq"][p] != post["cash"][p] + post["tmv"][p]:
+            bad("C02:equity", "total equity[%s] %s != cash %s + market value %s" % (p, post["teq"][p], post["cash"][p], post["tmv"][p]),
+                cascade=False)
+        if post["tmv"][p] != sum(v["mv"] for v in post["hold"][p].values()):
+            bad("C02:mv-total", "total market value[%s] %s != sum of holdings %s" % (p, post["tmv"][p], post["hold"][p]), cascade=False)
     if post["now"] != S["now"]:
         bad("MODEL:now", "broker clock %s, expected %s" % (post["now"], S["now"]))
+    # ---- a refused call: nothing the property lists may have changed --------------------------------------
+    if rejected:
+        if prev is not None:
+            pp = prev["post"]
+            if post["master"] != pp["master"]:
+                bad("C15:state(master)", "master %s -> %s across a refused call" % (pp["master"], post["master"]))
+            if post["created"] != pp["created"]:
+                bad("C15:state(portfolios)", "portfolios %s -> %s across a refused call" % (pp["created"], post["created"]))
+            for p in pp["created"]:
+                if p not in post["cash"]:
+                    continue
+                if post["cash"][p] != pp["cash"][p]:
+                    bad("C15:state(cash)", "cash[%s] %s -> %s across a refused call" % (p, pp["cash"][p], post["cash"][p]))
+                h0 = dict((a, (v["qty"], v["mv"])) for a, v in pp["hold"][p].items())
+                h1 = dict((a, (v["qty"], v["mv"])) for a, v in post["hold"][p].items())
+                if h0 != h1:
+                    bad("C15:state(holdings)", "holdings[%s] %s -> %s across a refused call" % (p, h0, h1))
+                if post["queue"][p] != pp["queue"][p]:
+                    bad("C15:state(pending-orders)", "queue[%s] %s -> %s across a refused call" % (p, pp["queue"][p], post["queue"][p]))
+                if post["hist"][p] != pp["hist"][p]:
+                    bad("C15:state(history)", "history[%s] changed across a refused call (%d -> %d events)" % (
+                        p, len(pp["hist"][p]), len(post["hist"][p])))
+        if ev["fills"] or ev["marks"]:
+            bad("C15:state(no-fill)", "a refused call filled %s / marked %s" % (ev["fills"], ev["marks"]))
+        for p in post["created"]:
+            if p in asdict(S["clk"]) and post["clk"][p] != asdict(S["clk"])[p]:
+                bad("MODEL:clk", "clock[%s] %s, expected %s" % (p, post["clk"][p], asdict(S["clk"])[p]))
+        return out
+    # ---- an accepted call: the post-state is what TLC computed ---------------------------------------------
+    cash, clk, pos = asdict(S["cash"]), asdict(S["clk"]), asdict(S["pos"])
+    hist, queue, obs = asdict(S["hist"]), asdict(S["queue"]), S["obs"]
+    seen = asdict(S["seen"])
+    if post["master"] != S["master"]:
+        bad("C01:master", "master %s, expected %s" % (post["master"], S["master"]))
+    if post["created"] != list(S["created"]):
+        bad("C01:portfolios", "portfolios %s, expected %s" % (post["created"], S["created"]))
+        return out
     for p in post["created"]:
         if post["cash"][p] != cash[p]:
-            bad(tag("C01:cash"), "cash[%s] %s, expected %s" % (p, post["cash"][p], cash[p]))
+            bad("C01:cash", "cash[%s] %s, expected %s" % (p, post["cash"][p], cash[p]))
         if post["clk"][p] != clk[p]:
             bad("MODEL:clk", "clock[%s] %s, expected %s" % (p, post["clk"][p], clk[p]))
         # history: same events, in order, amounts and balances = true values rounded to cents
         h, eh = post["hist"][p], list(hist[p])
         if len(h) != len(eh):
-            bad(tag("C01:history"), "history[%s] has %d events, expected %d" % (p, len(h), len(eh)))
+            bad("C01:history", "history[%s] has %d events, expected %d" % (p, len(h), len(eh)))
         else:
             for i, (x, e) in enumerate(zip(h, eh)):
                 if x["kind"] != e["kind"] or x["t"] != e["t"] or not is_rounding(x["debit"], e["debit"]) \
                         or not is_rounding(x["credit"], e["credit"]) or not is_rounding(x["bal"], e["bal"]):
-                    bad(tag("C01:history"), "history[%s][%d] %r, expected (true amounts) %r" % (p, i, x, e))
+                    bad("C01:history", "history[%s][%d] %r, expected (true amounts) %r" % (p, i, x, e))
                     break
-        # holdings
+        # holdings: net of the fills, valued at the latest price seen
         hold, ehold = post["hold"][p], asdict(asdict(obs["hold"])[p])
         if set(hold) != set(ehold):
-            bad(tag("C02:domain"), "holdings[%s] %s, expected %s" % (p, sorted(hold), sorted(ehold)))
+            bad("C02:domain", "holdings[%s] %s, expected %s" % (p, sorted(hold), sorted(ehold)))
         for a in set(hold) & set(ehold):
             if hold[a]["qty"] != ehold[a]["qty"]:
-                bad(tag("C02:qty"), "qty[%s][%s] %s, expected %s" % (p, a, hold[a]["qty"], ehold[a]["qty"]))
-            if hold[a]["mv"] != ehold[a]["mv"]:
-                bad(tag("C02:mv"), "market value[%s][%s] %s, expected %s" % (p, a, hold[a]["mv"], ehold[a]["mv"]))
+                bad("C02:qty", "qty[%s][%s] %s, expected %s" % (p, a, hold[a]["qty"], ehold[a]["qty"]))
+                continue
+            sp = asdict(seen[p])[a]
+            if hold[a]["mv"] != hold[a]["qty"] * sp:
+                bad("C02:mv", "market value[%s][%s] %s, expected %s x latest price seen %s" % (p, a, hold[a]["mv"], hold[a]["qty"], sp))
+            # C03 relative to the price the implementation values the holding at
             f = post["_f"]["hold"][p][a]
-            for k in ("rpnl", "upnl", "tpnl"):
-                if not rat_close(f[k], ehold[a][k]):
-                    bad(tag("C03:" + k), "%s[%s][%s] %r, expected %s/%s mil" % (k, p, a, f[k], ehold[a][k][0], ehold[a][k][1]),
-                        cascade=False)
-        if post["tmv"][p] != asdict(obs["tmv"])[p]:
-            bad(tag("C02:mv-total"), "total market value[%s] %s, expected %s" % (p, post["tmv"][p], asdict(obs["tmv"])[p]))
-        if post["teq"][p] != asdict(obs["teq"])[p]:
-            bad(tag("C02:equity"), "total equity[%s] %s, expected %s" % (p, post["teq"][p], asdict(obs["teq"])[p]))
-        for k in ("trp", "tup", "ttp"):
-            if not rat_close(post["_f"][k][p], asdict(S["pnl"][k])[p]):
-                bad(tag("C03:" + k), "%s[%s] %r, expected %s" % (k, p, post["_f"][k][p], asdict(S["pnl"][k])[p]), cascade=False)
+            e = ehold[a]
+            q = hold[a]["qty"]
+            if not rat_close(f["rpnl"], e["rpnl"]):
+                bad("C03:rpnl", "rpnl[%s][%s] %r, expected %s/%s mil" % (p, a, f["rpnl"], e["rpnl"][0], e["rpnl"][1]), cascade=False)
+            if abs(f["tpnl"] - f["rpnl"] - f["upnl"]) > REL * max(1.0, abs(f["tpnl"])):
+                bad("C03:total", "tpnl[%s][%s] %r != realised %r + unrealised %r" % (p, a, f["tpnl"], f["rpnl"], f["upnl"]), cascade=False)
+            ledger = Fraction(f["mv"]) - Fraction(e["paid"] + e["fees"], 1000)
+            if abs(Fraction(f["tpnl"]) - ledger) > Fraction(REL) * max(1, abs(ledger)):
+                bad("C03:tpnl", "tpnl[%s][%s] %r, expected market value %r - paid %s - fees %s mil" % (p, a, f["tpnl"], f["mv"], e["paid"], e["fees"]),
+                    cascade=False)
+            if e["avg"][1] != 0 and q != 0:
+                px_obs = Fraction(f["mv"]) / q
+                exp_u = (px_obs - Fraction(e["avg"][0], e["avg"][1]) / 1000) * q
+                if abs(Fraction(f["upnl"]) - exp_u) > Fraction(REL) * max(1, abs(exp_u)):
+                    bad("C03:upnl", "upnl[%s][%s] %r, expected (price %s - average cost %s/%s mil) x %s" % (
+                        p, a, f["upnl"], float(px_obs), e["avg"][0], e["avg"][1], q), cascade=False)
+        fl = post["_f"]
+        if not rat_close(fl["trp"][p], asdict(S["pnl"]["trp"])[p]):
+            bad("C03:trp", "total realised[%s] %r, expected %s" % (p, fl["trp"][p], asdict(S["pnl"]["trp"])[p]), cascade=False)
+        if abs(fl["ttp"][p] - fl["trp"][p] - fl["tup"][p]) > REL * max(1.0, abs(fl["ttp"][p])):
+            bad("C03:ttp", "total pnl[%s] %r != %r + %r" % (p, fl["ttp"][p], fl["trp"][p], fl["tup"][p]), cascade=False)
         # pending orders
         q = [[o["oid"], o["asset"], o["qty"]] for o in queue[p]]
         if post["queue"][p] != q:
-            bad(tag("C04:queue"), "queue[%s] %s, expected %s" % (p, post["queue"][p], q))
-    # account totals are always obtainable and are the sums
-    if post["acctEq"] != obs["acctEq"]:
-        bad("C01:account-equity", "account total equity %s, expected %s" % (post["acctEq"], obs["acctEq"]), cascade=False)
-    if post["acctMv"] != obs["acctMv"]:
-        bad("C01:account-market-value", "account total market value %s, expected %s" % (post["acctMv"], obs["acctMv"]),
-            cascade=False)
-    exp_unk = dict(cash="ValueError", tmv="KeyError", teq="KeyError", dict="KeyError", ccy="ValueError")
-    if post["unk"] != exp_unk:
-        bad("C15:getter-errtype", "getters on unknown ids raised %s, expected %s" % (post["unk"], exp_unk), cascade=False)
+            bad("C04:queue", "queue[%s] %s, expected %s" % (p, post["queue"][p], q))
     # the fills of this call: which orders (C04), at what price / commission / time (C05)
     eb = list(S["batch"])
     fills = ev["fills"]
     ident = [(f["pid"], f["oid"], f["asset"], f["qty"]) for f in fills]
     eident = [(f["pid"], f["oid"], f["asset"], f["qty"]) for f in eb]
     if ident != eident:
-        bad(tag("C04:batch"), "filled %s, expected %s" % (ident, eident))
+        bad("C04:batch", "filled %s, expected %s" % (ident, eident))
         # the same orders were filled, but (some) in another portfolio than the one they were submitted to:
         # that portfolio's cash / holdings miss one of its own fills
         if sorted(x[1:] for x in ident) == sorted(x[1:] for x in eident):
             wrong = [(g, e) for g, e in zip(sorted(ident, key=lambda x: x[1]), sorted(eident, key=lambda x: x[1])) if g[0] != e[0]]
             if wrong:
-                bad(tag("C01:fill-portfolio"), "order %s filled in portfolio %s, submitted to %s" % (wrong[0][0][1], wrong[0][0][0], wrong[0][1][0]))
-                bad(tag("C02:fill-portfolio"), "order %s filled in portfolio %s, submitted to %s" % (wrong[0][0][1], wrong[0][0][0], wrong[0][1][0]))
+                bad("C01:fill-portfolio", "order %s filled in portfolio %s, submitted to %s" % (wrong[0][0][1], wrong[0][0][0], wrong[0][1][0]))
+                bad("C02:fill-portfolio", "order %s filled in portfolio %s, submitted to %s" % (wrong[0][0][1], wrong[0][0][0], wrong[0][1][0]))
     else:
         for f, e in zip(fills, eb):
             if f["px"] != e["px"]:
-                bad(tag("C05:price"), "fill %s priced %s, expected %s" % (ident, f["px"], e["px"]))
+                bad("C05:price", "fill %s priced %s, expected %s" % (ident, f["px"], e["px"]))
             if f["comm"] != e["comm"]:
-                bad(tag("C05:commission"), "fill %s commission %s, expected %s" % (ident, f["comm"], e["comm"]))
+                bad("C05:commission", "fill %s commission %s, expected %s" % (ident, f["comm"], e["comm"]))
             if f["t"] != e["t"]:
-                bad(tag("C05:stamp"), "fill %s stamped %s, expected %s" % (ident, f["t"], e["t"]))
+                bad("C05:stamp", "fill %s stamped %s, expected %s" % (ident, f["t"], e["t"]))
     em = set((m[0], m[1], m[2]) for m in S["marks"])
     gm = set((m["pid"], m["asset"], m["px"]) for m in ev["marks"])
     if em != gm:
-        bad(tag("C02:marks"), "marks %s, expected %s" % (sorted(gm), sorted(em)))
+        bad("C02:marks", "marks %s, expected %s" % (sorted(gm), sorted(em)))
     return out
 
 
@@ -154,7 +206,7 @@ def replay(states, stop_on_cascade=True):
             if ev["err"] != "ok":
                 raise RuntimeError("seeding call failed: %r -> %s" % (c, ev["err"]))
         ev0 = dict(call={"op": "init"}, err="ok", marks=[], fills=[], post=rig.project())
-        ms0 = compare(S0, ev0)
+        ms0 = compare(S0, ev0, None)
         for t, d, c in ms0:
             mism.append((0, t, d))
         events.append(ev0)
@@ -163,7 +215,7 @@ def replay(states, stop_on_cascade=True):
         for i, S in enumerate(states[1:], 1):
             ev = rig.apply(dict(S["call"]))
             events.append(ev)
-            ms = compare(S, ev)
+            ms = compare(S, ev, events[-2])
             for t, d, c in ms:
                 mism.append((i, t, d))
             if stop_on_cascade and any(c for _t, _d, c in ms):
